@@ -53,12 +53,20 @@ def _draw_patch(ch: Any) -> Tuple[str, Any, bool]:
     return kind, value, ch.flag(1, 3, 'patch.once')
 
 
-def _mocker_kwargs(kind: str, value: Any, once: bool) -> Dict[str, Any]:
+def _mocker_kwargs(kind: str, value: Any, once: bool, endpoint: str = '', method: str = '') -> Dict[str, Any]:
     kw: Dict[str, Any] = {'once': once}
     if kind == 'result':
         kw['result'] = value
     elif kind == 'error':
         kw['error'] = JsonRpcError(code=value[0], message=value[1])
+    elif value == 'reenter':
+        from ..ref import mocker as ref_mocker
+
+        def reenter(*a: Any, **k: Any) -> Any:
+            # the nested call goes to the endpoint and method this very patch is registered for
+            ref_mocker.REENTER_TARGET[0] = (endpoint, method)
+            return CALLBACKS['reenter'](*a, **k)
+        kw['callback'] = reenter
     else:
         kw['callback'] = CALLBACKS[value]
     return kw
@@ -124,11 +132,12 @@ def _draw_ops(ch: Any, n_ops: int, model_for_preconditions: MockerModel, allow_b
 def _apply_config(mocker: PjRpcMocker, model: MockerModel, op: Dict[str, Any]) -> None:
     if op['op'] == 'add':
         pk, pv, once = op['patch']
-        mocker.add(op['endpoint'], op['method'], **_mocker_kwargs(pk, pv, once))
+        mocker.add(op['endpoint'], op['method'], **_mocker_kwargs(pk, pv, once, op['endpoint'], op['method']))
         model.add(op['endpoint'], op['method'], pk, pv, once)
     elif op['op'] == 'replace':
         pk, pv, once = op['patch']
-        mocker.replace(op['endpoint'], op['method'], idx=op['idx'], **_mocker_kwargs(pk, pv, once))
+        mocker.replace(op['endpoint'], op['method'], idx=op['idx'],
+                       **_mocker_kwargs(pk, pv, once, op['endpoint'], op['method']))
         model.replace(op['endpoint'], op['method'], op['idx'], pk, pv, once)
     else:
         mocker.remove(op['endpoint'], op['method'])
@@ -245,7 +254,25 @@ def fam_sync(w: World) -> None:
     ctx = {'variant': 'sync', 'passthrough': passthrough}
     MC.REAL_CALLS.clear()
     model = MockerModel(passthrough)
+    model.reentrant = True
     clients = {e: MC.SimHttpClient(e) for e in ENDPOINTS + [UNPATCHED_ENDPOINT]}
+    def nested_call() -> Any:
+        """The re-entering callback's nested call: same endpoint, same method, same client."""
+        from ..ref.mocker import CallbackTrouble
+        try:
+            endpoint, method = ref_mocker.REENTER_TARGET[0]
+            resp = clients[endpoint].send(pjrpc.Request(method, ['nested'], 'nested-id'))
+        except ConnectionRefusedError:
+            return 'refused'
+        except CallbackTrouble:
+            return 'callback_raises'
+        if isinstance(resp.result if resp.is_success else None, str) and str(resp.result).startswith('real:'):
+            return 'passthrough'
+        return ['result', resp.result] if resp.is_success else ['error', resp.get_error().code]
+
+    from ..ref import mocker as ref_mocker
+    ref_mocker.REENTER_HOOK[0] = nested_call
+    w.cleanup.append(lambda: ref_mocker.REENTER_HOOK.__setitem__(0, None))
     mocker = PjRpcMocker(target='pjsim.mockclient.SimHttpClient._request', passthrough=passthrough)
     mocker.start()
     try:
